@@ -20,6 +20,10 @@ that kind is installed on a real ContactlessFrontend, one fault-free
              command) at every host command index of the exchange
   udp        datagram / socket faults of the UDP driver
   mixed      random combinations (two faults, random frames, random bits)
+  listen-hist  listen side: histories of 2-4 exchange() calls on one frontend
+             (send_data a response, b"" or None = keep silence), a status /
+             host-link fault at each call and host command; oracle on every
+             call
   race       exchange() while other threads close() / open() / __exit__() the
              frontend or exchange as well (host link working or unplugged),
              under the virtual scheduler with one forced thread switch at
@@ -916,6 +920,230 @@ def run_mixed(case, ctx):
         ctx.nontrivial()
 
 
+# ---------------------------------------------------------- leg listen-hist
+# Histories on the listen side.  After activation as a LocalTarget the upper
+# layers call exchange() again and again on the same frontend: with a response
+# to send, with b"" (nothing to send, receive only) and - after an RF error -
+# with None: "data may be none as target keeps silence on error" (udp.py),
+# which is what nfc.dep.Target.send_res_recv_req and
+# ContactlessFrontend._card_connect do (frame = None / tag_rsp = None) before
+# they wait for the initiator's retransmission.  Every call of the history is
+# judged by the property's outcome oracle; one call carries a fault.
+SENDS = ("rsp", "empty", "none")
+HIST_STATUS = {"pn53x": (0x01, 0x02, 0x03, 0x05, 0x0A, 0x13, 0x29, 0x31, 0x7F,
+                         0xFF),
+               "rcs380": (0x80, 0x400, 0x04, 0x02, 0x800, 0x80000000, 0x484,
+                          0x40000000)}
+HIST_HOST = [["timeout"], ["errframe"], ["noack"], ["skipack"],
+             ["ioerr", errno.EIO, "rsp"], ["ioerr", errno.ENODEV, "write"],
+             ["ioerr", errno.EIO, "ack"], ["trunc", 4], ["trunc", 7],
+             ["payload", 0], ["wrongcode", 1],
+             ["random", bytes.fromhex("0000ff00ff00")]]
+HIST_UDP = ("nothing", "rfoff", "other-brty-then-nothing", "nonhex",
+            "empty-datagram", "sock-eio", "send-eio", "send-short-1")
+LISTEN_COMBOS = [(d, k) for d, k in COMBOS if k.startswith("L-")]
+
+
+def hist_command(sc, i):
+    """the command the initiator sends before call i returns (all distinct,
+    same length as the scenario's command)"""
+    return sc.answer[:-1] + bytes([(sc.answer[-1] + 1 + i) & 0xFF])
+
+
+def hist_send(sc, how):
+    return {"rsp": sc.send, "empty": bytearray(), "none": None}[how]
+
+
+def hist_feed(sc, link, i, event=None):
+    """the RF partner's part of call i"""
+    cmd = hist_command(sc, i)
+    if sc.driver == "udp":
+        brty = sc.target.brty
+        good = ("%s %s" % (brty, cmd.hex())).encode()
+        link.inbox = [good]
+        if event is not None and not event.startswith("send-"):
+            for name, inbox, w in udp_events(sc):
+                if name == event:
+                    link.inbox = [good if x is not None and x == (
+                        "%s %s" % (brty, sc.rf_answer.hex())).encode() else x
+                        for x in inbox] + [None, None]
+        return cmd
+    link.chip.rf = lambda code, arg: (0, b"" if code == 0x90 else cmd)
+    if sc.ciu:
+        link.chip.ciu_rx = cmd
+    return cmd
+
+
+_hist_learned = {}
+
+
+def learn_hist(driver, kind):
+    """{send kind: [(host command code, fault-free response frame)]} of one
+    listen-side exchange() in a running history (None for a send kind whose
+    fault-free call does not return the initiator's command - the fault-free
+    history cases report that); a harness error if the command sequence
+    depended on more than the kind of send_data"""
+    key = (driver, kind)
+    if key in _hist_learned:
+        return _hist_learned[key]
+    sc = scenario(driver, kind)
+    seqs = {}
+    for how in SENDS:
+        dev, link = simchip.build(driver)
+        clf = simchip.frontend(dev)
+        clf.target = sc.target
+        if driver != "udp":
+            link.arm()
+        seen = []
+        for i, h in enumerate(("rsp", how, how)):
+            cmd = hist_feed(sc, link, i)
+            n = 0 if driver == "udp" else len(link.cmds)
+            try:
+                got = clf.exchange(hist_send(sc, h), sc.timeout)
+            except Exception:
+                got = None
+            if got is None or bytes(got) != cmd:
+                seen = None
+                break
+            seen.append([(0, b"")] if driver == "udp" else
+                        list(zip([c for c, a in link.cmds[n:]],
+                                 link.rsps[n:])))
+        if seen is not None and [c for c, r in seen[1]] != \
+                [c for c, r in seen[2]]:
+            raise HarnessError("host command sequence of %s %s send=%s is "
+                               "not stable" % (driver, kind, how))
+        seqs[how] = seen[1] if seen is not None else None
+    if seqs["rsp"] is None:
+        raise HarnessError("fault-free listen exchange failed: %s %s"
+                           % (driver, kind))
+    _hist_learned[key] = seqs
+    return seqs
+
+
+def enum_listen_hist(tier, seed):
+    import itertools
+    q = tier == "quick"
+    for d, k in LISTEN_COMBOS:
+        sc = scenario(d, k)
+        seqs = learn_hist(d, k)
+        hf = hostfamily(d)
+        pats = [list(p) for n in (2, 3, 4)
+                for p in itertools.product(SENDS, repeat=n)]
+        for pat in pats:
+            key = "%s|%s|%s" % (d, k, "".join(x[0] for x in pat))
+            if len(pat) == 3 and q and not keep(seed, 0.35, key):
+                continue
+            if len(pat) == 4 and not keep(seed, 0.05 if q else 0.5, key):
+                continue
+            base = {"driver": d, "kind": k, "sends": pat}
+            yield dict(base, call=None, at=0, fault=None)
+            for call, how in enumerate(pat):
+                if d == "udp":
+                    for ev in HIST_UDP:
+                        if ev.startswith("send-") and how == "none":
+                            continue
+                        yield dict(base, call=call, at=0, fault=["udp", ev])
+                    continue
+                seq = seqs[how]
+                if seq is None:
+                    continue    # the fault-free history reports it
+                idxs = list(range(len(seq)))
+                if q and len(idxs) > 5:
+                    idxs = idxs[:3] + idxs[-2:]
+                for at in idxs:
+                    code = seq[at][0]
+                    if phase_of(d, sc, code) == "rf":
+                        for x in HIST_STATUS[hf]:
+                            yield dict(base, call=call, at=at,
+                                       fault=["status", x])
+                    for f in HIST_HOST:
+                        if q and len(pat) > 2 and not keep(
+                                seed, 0.5, key, call, at, f):
+                            continue
+                        yield dict(base, call=call, at=at, fault=f)
+
+
+def run_listen_hist(case, ctx):
+    drv, kind, pat = case["driver"], case["kind"], case["sends"]
+    fault, fcall = case["fault"], case["call"]
+    sc = scenario(drv, kind)
+    seqs = learn_hist(drv, kind)
+    dev, link = simchip.build(drv)
+    clf = simchip.frontend(dev)
+    clf.target = sc.target
+    udp = drv == "udp"
+    if not udp:
+        link.arm()
+    want_f, phase, code = ANY, "rf", None
+    if fault is None:
+        cls = "%s/hist/%s" % (family(drv), kind)
+    elif udp:
+        cls = "udp/%s/%s" % ("send" if fault[1].startswith("send-") else
+                             "recv", fault[1].replace("send-", ""))
+        for name, x, w in list(udp_events(sc)) + UDP_SEND:
+            if name == fault[1]:
+                want_f = w
+    elif seqs[pat[fcall]] is None:
+        at, cls = case["at"], "%s/hist/%s" % (family(drv), kind)
+    else:
+        seq = seqs[pat[fcall]]
+        at = case["at"] % len(seq)
+        code = seq[at][0]
+        phase = phase_of(drv, sc, code)
+        cls = fault_class(drv, phase, fault, seq[at][1])
+        if fault[0] == "status" and phase == "rf":
+            want_f = expected_for_status(drv, sc, code, fault[1])
+        else:
+            want_f = expected_for_hostfault(drv, sc, phase, fault)
+    ctx.set_class(cls)
+    ctx.label("driver:" + drv, "kind:" + kind, "calls:%d" % len(pat),
+              "fault:" + (fault[0] if fault else "none"))
+    if cls in EXCLUDE_CLASSES:
+        ctx.label("excluded-dev:" + cls)
+        return
+    in_sync = True          # the host link and the RF partner are where a
+    #                         fault-free history would have left them
+    outcomes = []
+    for i, how in enumerate(pat):
+        faulted = fault is not None and i == fcall
+        cmd = hist_feed(sc, link, i, fault[1] if faulted and udp else None)
+        if faulted and udp and fault[1].startswith("send-"):
+            for name, act, w in UDP_SEND:
+                if name == fault[1]:
+                    link.send_script = {len(link.sent): act}
+        elif faulted and not udp:
+            link.script = {len(link.cmds) + at: fault}
+        what = "%s %s listen history %r call %d (send %s)%s" % (
+            drv, kind, pat, i, how,
+            "" if fault is None else ", fault %r at host command %s of call %d"
+            % (fault, case["at"], fcall))
+        send = hist_send(sc, how)
+        tag, val = classify_outcome(
+            lambda: clf.exchange(send, sc.timeout), what)
+        tag = check_general(sc, tag, val, what)
+        outcomes.append("%s:%s" % (how, tag))
+        ctx.label("outcome:" + tag)
+        if faulted:
+            if want_f is not ANY and tag not in want_f:
+                raise Violation("wrong-error-mapping", "%s -> %s (%s), "
+                                "expected %s" % (what, tag, val,
+                                                 "/".join(sorted(want_f))))
+            if udp:
+                in_sync = not [x for x in link.inbox if x is not None]
+            else:
+                in_sync = fault[0] == "status" and phase == "rf"
+            if i + 1 < len(pat):
+                ctx.nontrivial()
+        elif in_sync:
+            # no fault in this call and nothing left over from an earlier one:
+            # the call returns the received data
+            if tag != "data" or bytes(val) != cmd:
+                raise Violation("fault-free-call-fails", "%s -> %s (%r), the "
+                                "initiator sent %s" % (what, tag, val,
+                                                       cmd.hex()))
+    ctx.note({"outcomes": outcomes})
+
+
 # ---------------------------------------------------------------- leg race
 # exchange() while other threads close / reopen the frontend or exchange as
 # well, under the virtual scheduler: the real driver over the simulated chip,
@@ -1141,6 +1369,25 @@ LEGS = [
              "values) at random host command indices; general oracle only; "
              "non-trivial = more than one fault or a fault at a preparatory "
              "command."),
+    Leg("listen-hist", run=dev_known(run_listen_hist), enum=enum_listen_hist,
+        exhaustive=True, shards_quick=16, shards_thorough=16,
+        rule="listen-side histories on one frontend: every driver x listen "
+             "kind (%d combinations) x every sequence of 2 exchange() calls "
+             "(quick: plus a seeded 35 %% of the 3-call and 5 %% of the 4-call "
+             "sequences; thorough: all 3-call, half of the 4-call ones) whose "
+             "send_data is a response, b'' or None (target keeps silence and "
+             "waits for the retransmission) x {no fault; at each call and "
+             "each host command of that call (quick: first 3 and last 2): %d "
+             "status codes at the RF commands, %d host-link faults (quick: "
+             "half of them for 3+ calls); udp: %d datagram / socket events}. "
+             "Oracle on EVERY call: bytes-like data / None or "
+             "CommunicationError subclass or IOError; the faulted call also "
+             "by the unambiguous-mapping table; calls before the fault, and "
+             "after an RF status fault, return exactly the command the "
+             "simulated initiator sent. Non-trivial = a faulted call that is "
+             "followed by at least one more call."
+             % (len(LISTEN_COMBOS), len(HIST_STATUS["pn53x"]),
+                len(HIST_HOST), len(HIST_UDP))),
     Leg("race", run=dev_known(run_race), enum=enum_race, exhaustive=True,
         shards_quick=16, shards_thorough=16,
         rule="exchange() concurrent with close() / open() / __exit__() / "
